@@ -14,6 +14,7 @@ import (
 	"path/filepath"
 	"reflect"
 	"runtime"
+	"sort"
 	"strconv"
 	"strings"
 	"sync"
@@ -33,6 +34,12 @@ type thread struct {
 	yielded bool
 	harness bool
 	waitFor map[int]bool // fair scheduling: threads owed a step before this yielder runs again
+	// path is the thread's identity for ordering: registration index for harness threads, otherwise the parent's path
+	// plus the spawn site and the parent's own count of spawns at that site. Unlike the creation order it does not
+	// depend on how goroutines that run between two scheduling points interleave.
+	path  string
+	kids  map[string]int
+	early bool // created before the scenario's threads were released
 }
 
 // Sched is the scheduler of one execution.
@@ -50,9 +57,15 @@ type Sched struct {
 	focus     []string
 	timeStep  time.Duration
 	maxAdv    int
+	orphans   map[string]int
 }
 
 var cur *Sched //nolint:gochecknoglobals
+
+// PathOrder selects the second canonical order of enabled threads: purely by path, i.e. a goroutine's children
+// come before the threads registered after it. The default schedule is then another one, and a deviation-bounded
+// exploration covers another neighbourhood of schedules.
+var PathOrder bool //nolint:gochecknoglobals
 
 // EarlyFail, when set, is called inside the bubble as soon as a deadlock / horizon is detected.
 var EarlyFail func(Failure) //nolint:gochecknoglobals
@@ -83,7 +96,26 @@ func (s *Sched) me() *thread {
 func (s *Sched) newThread(name string) *thread {
 	s.mu.Lock()
 	defer s.mu.Unlock()
-	th := &thread{id: len(s.threads), name: name, grant: make(chan int)}
+	th := &thread{id: len(s.threads), name: name, grant: make(chan int), kids: map[string]int{}, early: !s.setupDone}
+	th.path = fmt.Sprintf("%03d:%s", th.id, name) // harness threads are registered by one goroutine, in program order
+	s.threads = append(s.threads, th)
+
+	return th
+}
+
+// newChild registers a goroutine spawned at leaf ("go@file:line") by the calling goroutine.
+func (s *Sched) newChild(leaf string) *thread {
+	g := goid()
+	s.mu.Lock()
+	defer s.mu.Unlock()
+	th := &thread{id: len(s.threads), name: leaf, grant: make(chan int), kids: map[string]int{}, early: !s.setupDone}
+	if parent := s.byGoid[g]; parent != nil {
+		th.path = fmt.Sprintf("%s/%s#%d", parent.path, leaf, parent.kids[leaf])
+		parent.kids[leaf]++
+	} else { // spawned by a goroutine the scheduler does not know (library timer goroutine)
+		th.path = fmt.Sprintf("~/%s#%d", leaf, s.orphans[leaf])
+		s.orphans[leaf]++
+	}
 	s.threads = append(s.threads, th)
 
 	return th
@@ -218,7 +250,7 @@ func Spawn(site string) func() {
 		// spawned by a goroutine the scheduler does not know (library timer goroutine): still give it an identity
 		_ = site
 	}
-	th := s.newThread("go@" + site)
+	th := s.newChild("go@" + site)
 
 	return func() {
 		if cur != s {
@@ -249,7 +281,7 @@ func WrapAfterFunc(site string, f func()) func() {
 	if s == nil {
 		return f
 	}
-	th := s.newThread("timer@" + site)
+	th := s.newChild("timer@" + site)
 
 	return func() {
 		if cur != s {
@@ -410,11 +442,28 @@ func (s *Sched) loop(maxSteps int) {
 				en = append(en, th)
 			}
 		}
+		first := len(en)
 		for _, th := range s.threads {
 			if th.parked && th.id != last && !th.yielded && !held(th) {
 				en = append(en, th)
 			}
 		}
+		// threads that exist when the scenario starts keep their registration order (the set-up runs under one forced
+		// schedule); goroutines spawned later are ordered by path, never by the order in which they happened to be created
+		sort.SliceStable(en[first:], func(i, j int) bool {
+			a, b := en[first+i], en[first+j]
+			if PathOrder {
+				return a.path < b.path
+			}
+			if a.early != b.early {
+				return a.early
+			}
+			if a.early {
+				return a.id < b.id
+			}
+
+			return a.path < b.path
+		})
 		if len(en) == 0 { // only mutually waiting yielders left: release them all
 			for _, th := range s.threads {
 				if th.parked && th.yielded && !held(th) {
@@ -584,7 +633,7 @@ func traceHash(tr []string) string {
 func RunOne(t *testing.T, sc Scenario, prefix []int) (s *Sched, outcome, failure string) {
 	t.Helper()
 	synctest.Test(t, func(*testing.T) {
-		s = &Sched{byGoid: map[int64]*thread{}, prefix: prefix, focus: sc.Focus, timeStep: sc.TimeStep, maxAdv: sc.MaxAdv}
+		s = &Sched{byGoid: map[int64]*thread{}, orphans: map[string]int{}, prefix: prefix, focus: sc.Focus, timeStep: sc.TimeStep, maxAdv: sc.MaxAdv}
 		cur = s
 		var fin func(string) (string, string)
 		s.Go("SETUP", func() {
